@@ -2,12 +2,14 @@
 //! tunnel server, ingress filter).
 use vmon::{Args, Mon};
 
+mod c08;
 mod c10;
 
 fn main() {
     let args = Args::parse();
     let mut mon = Mon::new();
     let (rule, assumptions): (String, Vec<&'static str>) = match args.prop.as_str() {
+        "C08" => c08::run(&args, &mut mon),
         "C10" => c10::run(&args, &mut mon),
         other => panic!("chk-snap does not implement {other}"),
     };
